@@ -605,9 +605,68 @@ def _chunks(n, size):
     return [(i, min(n, i + size)) for i in range(0, n, size)]
 
 
+# DOMs that were edited after parsing: the literal spelling belongs to the keyword the rule has *now*
+EDITED = {
+    'margin=': ('@page{@Top-Left{color:red}@top-right{left:0}}', lambda s: setattr(s.cssRules[0].cssRules[0], 'margin', '@bottom-center')),
+    'margin.cssText=': ('@page{@Top-Left{color:red}}', lambda s: setattr(s.cssRules[0].cssRules[0], 'cssText', '@bottom-center{left:0}')),
+    'margin=literal': ('@page{@top-left{color:red}}', lambda s: setattr(s.cssRules[0].cssRules[0], 'margin', '@BOTTOM-Center')),
+    'page.cssText=': ('@PAGE{margin:0}', lambda s: setattr(s.cssRules[0], 'cssText', '@page :first{margin:1px}')),
+    'import.cssText=': ('@IMPORT "a.css";', lambda s: setattr(s.cssRules[0], 'cssText', '@import "b.css";')),
+    'media.cssText=': ('@MEDIA print{a{left:0}}', lambda s: setattr(s.cssRules[0], 'cssText', '@media tv{a{left:0}}')),
+    'property.name=': ('a{COLOR:red}', lambda s: setattr(s.cssRules[0].style.getProperties(all=True)[0], 'name', 'left')),
+    'property.priority=': ('a{color:red !IMPORTANT}', lambda s: setattr(s.cssRules[0].style.getProperties(all=True)[0], 'priority', '')),
+}
+
+
+def _keywords(rules, out):
+    for r in rules:
+        kw = getattr(r, 'margin', None) or getattr(r, 'atkeyword', None)
+        if kw:
+            out.append(kw.lower())
+        sub = getattr(r, 'cssRules', None)
+        if sub is not None:
+            _keywords(sub, out)
+    return out
+
+
+def run_edited(res, key):
+    text, edit = EDITED[key]
+    for literal in (False, True):
+        guard.pristine()
+        case = {'kind': 'edited', 'key': key, 'text': text, 'literal_spellings': literal}
+        res.evaluations += 1
+        res.nontrivial += 1
+        res.clauses['C06.effect'] += 1
+        try:
+            with guard.watchdog(WATCHDOG):
+                sheet = _parser().parseString(text)
+                cssutils.log.raiseExceptions = True
+                edit(sheet)
+                want = _keywords(sheet.cssRules, [])
+                names = [(p.name, p.priority) for r in sheet.cssRules if getattr(r, 'style', None) is not None for p in r.style.getProperties(all=True)]
+                for pref in ('defaultAtKeyword', 'defaultPropertyName', 'defaultPropertyPriority'):
+                    setattr(cssutils.ser.prefs, pref, not literal)
+                out = sheet.cssText.decode('utf-8')
+                cssutils.ser.prefs.useDefaults()
+                back = _parser().parseString(out)
+                got = _keywords(back.cssRules, [])
+                names2 = [(p.name, p.priority) for r in back.cssRules if getattr(r, 'style', None) is not None for p in r.style.getProperties(all=True)]
+        except guard.Timeout:
+            res.violation('C06.wellformed', 'timeout|edited', case, 'an output', 'timeout')
+            continue
+        except Exception as e:
+            res.violation('C06.wellformed', guard.crash_site(e) + '|edited', case, 'an output', repr(e)[:300])
+            continue
+        finally:
+            cssutils.log.raiseExceptions = True
+        res.outcomes.add(h64(['edited', key, literal, out]))
+        if got != want or names2 != names:
+            res.violation('C06.effect', f'literal-spelling-of-an-earlier-value-written|{key.split(".")[0].rstrip("=")}', case, [want, names], [got, names2], note=out[:300])
+
+
 def plan(tier):
     q = tier == 'quick'
-    shards = []
+    shards = [['edited', k, 0, 0] for k in EDITED]
     np_, nm1, nm2 = len(pairs()), len(singles(MINIFIED)), len(pairs(MINIFIED))
     for name in SHEETS:
         shards.append(['single', name, 0, 0])
@@ -637,6 +696,11 @@ def cube_assignment(i):
 def run_shard(shard, tier, seed):
     res = Result(seed)
     kind, name, lo, hi = shard
+    if kind == 'edited':
+        run_edited(res, name)
+        res.sample({'kind': 'edited', 'key': name, 'text': EDITED[name][0], 'literal_spellings': True})
+        guard.pristine()
+        return res
     sh = Sheet(name)
     cache = {}
     if kind == 'single':
@@ -795,6 +859,15 @@ def run_script(res, sh, only=None):
 
 def replay(case, tier, seed):
     res = Result(seed)
+    if case.get('kind') == 'edited':
+        full = Result(seed)
+        run_edited(full, case['key'])
+        for sig, v in full.violations.items():
+            if v['case'].get('literal_spellings') == case.get('literal_spellings'):
+                res.violations[sig] = v
+                res.violation_counts[sig] += 1
+        guard.pristine()
+        return res
     sh = Sheet(case['sheet'], case.get('text'))
     if 'script' in case:
         run_script(res, sh, only=case['script'])
